@@ -50,9 +50,19 @@ def gen(streams, tier, i):
         ops.append({"op": "add", "line": ln, "as": "obj" if sr.random() < 0.15 else "str"})
     ops.append({"op": "flush"})
     sh = hist.Shadow(doc["version"], [l for j, l in enumerate(lines) if j not in drop])
-    p_bad = cfg_r.choice([0.0, 0.0, 0.15])
+    p_bad = cfg_r.choice([0.0, 0.0, 0.15, 0.3])
     nmut = sr.randint(1, 12 if tier == "quick" else 25)
-    ops += hist.mutation_ops(streams.get("history"), sh, nmut, k, p_bad=p_bad)
+    hr = streams.get("history")
+    if p_bad == 0.0:
+        ops += hist.mutation_ops(hr, sh, nmut, k, p_bad=0.0)
+    else:
+        # histories in which some calls fail (caught by the client): the graph must stay closed all the same
+        from .c07 import corrupt
+        for _ in range(nmut):
+            if hr.random() < p_bad:
+                ops += hist.bad_op(fr, sh, k, corrupt)[1]
+            else:
+                ops += hist.mutation_ops(hr, sh, 1, k, p_bad=p_bad)
     return {"cfg": {"version": doc["version"], "order": mode, "dropped": len(drop), "p_bad": p_bad,
                     "vlevel": vlevel}, "ops": ops}
 
@@ -77,6 +87,15 @@ def run(scn, st):
     seen_removed_texts = set()
     for n, op in enumerate(scn["ops"]):
         if w.gfa is None and op["op"] != "new":
+            continue
+        if op["op"] not in ("new", "add", "flush", "rm", "rename"):
+            w.apply(op)          # tag edits etc. of the bad-call catalogue: executed, then checked like any step
+            if w.gfa is not None:
+                try:
+                    inv.closed_symmetric(w.gfa, w.removed)
+                except inv.Bad as b:
+                    raise core.Violation(b.clause, "after step %d %s: %s" % (n, _opstr(op), b.detail),
+                                         op=op["op"], rts=list(b.rts), after="other")
             continue
         pre_probe = None
         if op["op"] == "rm" and w.gfa is not None:
